@@ -261,8 +261,9 @@ def _struct_reader(prog, b, rt, adt_path, vname=None, input_ok=None):
     # Err results propagate the inner error
     for e in errs:
         inner = e[3][0]
-        if not any(x[0] == "field" and x[1][0] == "downcast" and x[1][3] in ("Err", "Break") for x in mir.walk(inner)) and not any(x[0] == "str" for x in mir.walk(inner)):
-            raise Unrecognised("Err result %s does not propagate an error" % path_str(e)[:100])
+        if not any(x[0] == "field" and x[1][0] == "downcast" and x[1][3] in ("Err", "Break") for x in mir.walk(inner)):
+            raise Unrecognised("EXTRA-REJECTION: the reader has an error exit %s that does not propagate the error of a nested decode: it rejects "
+                               "input on a condition of its own, which the writer does not observe" % path_str(e)[:100])
     seq = [(it[0], it[2], it[3]) for it in order]
     phantoms = [(it[0], "phantom", False) for it in items if it[1] is None]
     return seq, phantoms
